@@ -68,8 +68,34 @@ def _finditer(pattern, string, flags=0):
         return iter(out)
     return _orig_finditer(pattern, string, flags)
 
+_orig_findall = _re.findall
+def _findall(pattern, string, flags=0):
+    """is_results_line counts findall('\\.[0-9]+', line): on a symbolic row the matches are
+    the concrete points followed by a cell that is certainly a digit; Unsupported if a
+    symbolic cell could be a point or is only possibly a digit."""
+    if isinstance(string, SStr):
+        if pattern != '\\.[0-9]+': raise sym.Unsupported('regex %r on a symbolic row' % (pattern,))
+        cells = string.cells
+        out = []
+        for k, c in enumerate(cells):
+            r = strs.cells_equal(c, '.')
+            if r is False: continue
+            if r is not True: raise sym.Unsupported('regex result depends on a symbolic cell')
+            if k + 1 >= len(cells): continue
+            d = cells[k + 1]
+            if isinstance(d, str): isd = d.isdigit() and d.isascii()
+            elif isinstance(d, strs.DChar) and d.dom <= _DIG: isd = True
+            elif isinstance(d, strs.DChar) and not (d.dom & _DIG): isd = False
+            else: raise sym.Unsupported('regex result depends on a symbolic cell')
+            if isd: out.append('.0')
+        cx = sym.ctx()
+        if cx is not None: cx.stubs_hit.add("re.findall('\\.[0-9]+') counted on the concrete points followed by a digit-class cell")
+        return out
+    return _orig_findall(pattern, string, flags)
+
 def _install_re_shim():
     if _re.finditer is not _finditer: _re.finditer = _finditer
+    if _re.findall is not _findall: _re.findall = _findall
 
 
 # ---------------------------------------------------------------------------
@@ -458,6 +484,181 @@ def task_table(rel, ti, window, variant, nother):
     return report.summarize(_name(rel, kind, window, variant), res, failures, samples, extra=extra)
 
 
+# ---------------------------------------------------------------------------
+# row names: the real setup_table_* and read_table_* on a miniature table in memory
+
+def _dig(e): return z3.And(e >= 48, e <= 57)
+
+def task_setup(rel, ti, symrow, nother):
+    """The real setup_table_AUTOUGH2 / setup_table_TOUGH2 (as bound by detect_simulator)
+    builds the table from a miniature listing table holding the chosen rows; then the real
+    read_table_* fills it.  In row number `symrow` of that table the name characters in
+    columns 3, 4, 5 of every key are symbolic (column 3: the printed character or any digit;
+    column 4: blank or any digit; column 5: any digit) and the digits of its numbers are
+    symbolic.  Obligations: every row name is the tuple of repaired (a3,i2) forms of the
+    printed names - single- and multi-key tables alike -, the table addressed by that
+    name returns the row addressed by index, and the cells are the printed numbers."""
+    ld = _load()
+    fam, tabs = file_tables(rel)
+    tab = tabs[ti]
+    kind = tab['kind']
+    obj = reader_object(ld, rel)
+    nkeys, cols = parse_header(obj, tab['header'])
+    int_first = cols[0] == 'I'
+    rows = tab['rows']
+    li, others = cc.choose_rows(rows, nother)
+    toks_all = {k: cc.tokenize_row(rows[k], int_first) for k in [li] + others}
+    kp = cc.printed_keys(rows[li], toks_all[li][0]['start'], nkeys)
+    if kp is None: raise ValueError('extractor found no printed names in the longest row of %s/%s' % (rel, kind))
+    # rows of the miniature table: file order, distinct names and distinct row indices
+    sel, seen_names, seen_idx = [], set(), set()
+    for k in sorted([li] + others):
+        nm = tuple(rows[k][p:p + 5] for p in kp)
+        ix = cc.row_index_value(rows[k], toks_all[k][0]['start'])
+        if nm in seen_names or ix in seen_idx or ix is None: continue
+        seen_names.add(nm); seen_idx.add(ix); sel.append(k)
+    if fam != 'AUTOUGH2':
+        order = sorted(range(len(sel)), key=lambda i: cc.row_index_value(rows[sel[i]], toks_all[sel[i]][0]['start']))
+    else:
+        order = list(range(len(sel)))
+    sr = min(symrow, len(sel) - 1)
+    ks = sel[sr]
+    text = rows[ks]
+    # symbolic row
+    srow, cons = symbolize('s', text, toks_all[ks], set())
+    cells = list(srow.cells)
+    for p in kp:
+        for off, dom in ((2, ({ord(text[p + 2])} | _DIG)), (3, ({32} | _DIG)), (4, _DIG)):
+            e = z3.Int('s.k%d' % (p + off))
+            dom = frozenset(dom)
+            cells[p + off] = strs.DChar(e, dom)
+            cons.append(z3.Or(*[e == d for d in sorted(dom)]) if len(dom) != 10 else _dig(e))
+    srow = SStr(cells)
+    expected = [expected_term(cells, t) for t in toks_all[ks]]
+    def raw_codes(k):
+        src = cells if k == ks else list(rows[k])
+        return [[strs.cell_code(src[p + j]) for j in range(5)] for p in kp]
+    def repaired(codes):
+        out = list(codes)
+        out[3] = z3.If(z3.And(_dig(out[2]), _dig(out[4]), out[3] == 32), z3.IntVal(48), out[3])
+        return out
+    onames = {k: [repaired(c5) for c5 in raw_codes(k)] for k in sel}       # oracle: codes of the repaired names
+    def as_name(k):
+        """the oracle name as a string object usable as a table key"""
+        parts = []
+        for c5 in onames[k]:
+            cs = []
+            for j, e in enumerate(c5):
+                e = z3.simplify(e)
+                cs.append(chr(e.as_long()) if z3.is_int_value(e) else strs.DChar(e, ({32} | _DIG) if j == 3 else frozenset(range(32, 127))))
+            parts.append(strs._mk(cs))
+        return parts[0] if nkeys == 1 else tuple(parts)
+    # names of the table are pairwise distinct (assumed: two rows with one name are not addressable by name)
+    distinct = []
+    for a in sel:
+        if a == ks: continue
+        distinct.append(z3.Or(*[z3.simplify(x != y) for ca, cb in zip(onames[a], onames[ks]) for x, y in zip(ca, cb)]))
+    lines, first = cc.mini_table_lines(fam, kind, tab['header'], tab['between'], [srow if k == ks else rows[k] for k in sel])
+    failures, samples, dist = [], [], set()
+    base_key = '%s/%s/rownames' % (rel, kind)
+
+    def h(c):
+        for con in cons: c.add(con)
+        for d in distinct: c.add(d)
+        def fail(stage, what, formula=False):
+            r = c.prove(formula, stage)
+            if r == 'sat':
+                m = c.failures[-1]['model']
+                failures.append(dict(key='%s/%s' % (base_key, stage), what='%s %s table: %s' % (rel, kind, what),
+                                     replay=dict(mode='setup', file=rel, kind=kind, family=fam, header=tab['header'], between=tab['between'],
+                                                 rows=[concretize(m, srow, text) if k == ks else rows[k] for k in sel],
+                                                 tokens=[toks_all[k] for k in sel], keypos=kp, nkeys=nkeys, stage=stage)))
+            return r
+        obj._file = cc.LineFile(lines)
+        obj._table, obj._tablenames, obj.title, obj.skip_tables = {}, [], 'C05 MINIATURE TABLE', []
+        try:
+            obj.setup_table(kind)
+        except sym.EngineAbort: raise
+        except Exception as ex:
+            fail('setup:raises', 'setup_table raised %s: %s' % (type(ex).__name__, _extext(ex))); return 'setup-raises'
+        table = obj._table[kind]
+        if len(table.row_name) != len(sel):
+            fail('rows', 'table has %d rows, %d were printed' % (len(table.row_name), len(sel))); return 'rows'
+        items = []
+        for pos, i in enumerate(order):
+            k = sel[i]
+            got = table.row_name[pos]
+            got = [got] if nkeys == 1 else list(got)
+            if len(got) != nkeys:
+                fail('row-name', 'row name %r is not a %d-tuple' % (got, nkeys)); return 'name-shape'
+            for g, c5 in zip(got, onames[k]):
+                gc = [strs.cell_code(x) for x in (g.cells if isinstance(g, SStr) else list(g))]
+                f = z3.And(*[x == y for x, y in zip(gc, c5)]) if len(gc) == 5 else z3.BoolVal(False)
+                fs = z3.simplify(f)
+                if not z3.is_true(fs): dist.add(('name', k, fs.hash()))
+                items.append((f, 'row-name'))
+        bad = c.prove_all(items)
+        if bad:
+            m = ([f_ for f_ in c.failures if f_['label'] == 'row-name'] or [dict(model=None)])[-1]['model']
+            failures.append(dict(key='%s/row-name' % base_key,
+                                 what='%s %s table: a row name is not the repaired form of the printed name(s)' % (rel, kind),
+                                 replay=dict(mode='setup', file=rel, kind=kind, family=fam, header=tab['header'], between=tab['between'],
+                                             rows=[concretize(m, srow, text) if k == ks else rows[k] for k in sel],
+                                             tokens=[toks_all[k] for k in sel], keypos=kp, nkeys=nkeys, stage='row-name')))
+            return 'name-differs'
+        # fill the table with the real read_table_*
+        obj._file.seek(0)
+        try:
+            obj.read_table(kind)
+        except sym.EngineAbort: raise
+        except Exception as ex:
+            fail('read:raises', 'read_table raised %s: %s' % (type(ex).__name__, _extext(ex))); return 'read-raises'
+        items = []
+        for pos, i in enumerate(order):
+            k = sel[i]
+            by_name = table[as_name(k)]
+            by_index = table[pos]
+            if by_name is None:
+                fail('addressing:name', 'table[repaired printed name] of row %d is None' % pos); return 'lookup-none'
+            for j, col in enumerate(cols):
+                a, b = by_name[col], by_index[col]
+                if _is_nan(a) or _is_nan(b):
+                    fail('nan', 'row %d column %s read as nan' % (pos, col)); return 'nan'
+                items.append((sym.lift_real(a) == sym.lift_real(b), 'addressing:name-vs-index'))
+                if k == ks:
+                    if j < len(expected):
+                        exp, _, oparts = expected[j]
+                        rparts = strs.num_parts(sym.lift_real(b))
+                        f = z3.And(*[x == y for x, y in zip(rparts, oparts)]) if rparts is not None else (sym.lift_real(b) == exp)
+                        dist.add(('val', j, z3.simplify(f).hash()))
+                    else: f = sym.lift_real(b) == 0
+                else:
+                    tk = toks_all[k]
+                    f = (b == (cc.token_text_value(rows[k].rstrip('\r\n'), tk[j]) if j < len(tk) else 0.0))
+                    if not isinstance(f, bool): f = bool(f)
+                items.append((f, 'value'))
+        bad = c.prove_all(items)
+        if bad:
+            lab = bad[0][0]
+            m = ([f_ for f_ in c.failures if f_['label'] == lab] or [dict(model=None)])[-1]['model']
+            failures.append(dict(key='%s/%s' % (base_key, lab), what='%s %s table: %s fails after setup_table + read_table' % (rel, kind, lab),
+                                 replay=dict(mode='setup', file=rel, kind=kind, family=fam, header=tab['header'], between=tab['between'],
+                                             rows=[concretize(m, srow, text) if k == ks else rows[k] for k in sel],
+                                             tokens=[toks_all[k] for k in sel], keypos=kp, nkeys=nkeys, stage=lab)))
+            return 'differs'
+        if not samples:
+            samples.append(dict(file=rel, table=kind, simulator=obj.simulator, rows=len(sel), symbolic_row=repr(srow)[:200],
+                                row_names=repr(table.row_name)[:300]))
+            r, _ = c.reachable()
+            if r != 'sat': return 'unreachable'
+        return 'checked'
+
+    res = sym.explore(h, sym.Ctx(timeout_ms=30000), max_paths=3000)
+    extra = dict(distinct_obligations=len(dist), simulator=obj.simulator)
+    if not [p for p in res['paths'] if p.outcome != 'unreachable']: extra['vacuous'] = True
+    return report.summarize('%s/%s/rownames/row%d' % (rel, kind, sr), res, failures, samples, extra=extra)
+
+
 def _name(rel, kind, window, variant):
     return '%s/%s/w%s/%s' % (rel, kind, 'all' if window is None else '%d-%d' % (window[0], window[-1]) if window else 'none',
                              'base' if variant is None else 'noE@%s:%d' % variant)
@@ -515,6 +716,16 @@ def build_tasks(tier):
                     w = tuple(x for x in (j, j + 1) if 0 <= x < len(tl))     # its own sign and the sign after it
                     tasks.append((task_table, dict(rel=rel, ti=ti, window=w if fam != 'AUTOUGH2' else None,
                                                    variant=('longest', j), nother=nother)))
+    # row names: real setup_table_* + read_table_* on a miniature table (task_setup)
+    for rel in files:
+        fam, tabs = file_tables(rel)
+        if tier == 'thorough': sel = list(range(len(tabs)))
+        else:
+            # quick: the first table and the first table with two names per row (connection / generation)
+            sel = list(range(min(1, len(tabs)))) + [i for i, t in enumerate(tabs) if t['nkeys'] == 2][:1]
+        for ti in sel:
+            for sr in ((1,) if tier == 'quick' else (0, 1, 2)):
+                tasks.append((task_setup, dict(rel=rel, ti=ti, symrow=sr, nother=2)))
     return tasks, len(files), ntables, K, nother
 
 
@@ -592,13 +803,19 @@ def run(tier, seed, rep):
         '(where each one forks parse_table_line) windows of %d consecutive columns at a time, all windows, the other signs as printed' % K,
         'exponent-form variants: one number at a time rewritten from E+dd to the letterless three-digit form +1dd (same width), '
         + ('in one other row' if tier == 'quick' else 'in one other row and in the longest row, at the first / middle / last E-form column'),
-        'punctuation, block names and the row index stay as printed',
+        'punctuation, block names and the row index stay as printed in those tasks',
+        'row names (task_setup): the real setup_table_AUTOUGH2 / setup_table_TOUGH2 and read_table_* run on a miniature table of 3 rows '
+        '(longest + 2 others) of ' + ('the first table and the first two-name table of each file; in the second row' if tier == 'quick' else
+                                      'every table of each file; in each of the 3 rows in turn') +
+        ' the characters in columns 3, 4, 5 of every name are symbolic (column 3: printed character or any digit, column 4: blank or any digit, '
+        'column 5: any digit) together with the digits of its numbers; names of the other rows, columns 1-2 and the row index as printed',
     ]
     rep.outside += [
         'whole-file scanning: simulator detection is run concretely only to bind the per-simulator methods; setup_pos, setup_tables, '
-        'skip_to_results_line, internal headers, next_table, read_tables, skip_tables, multi-time reading, history() and the '
-        'TOUGH2_MP row reordering (row_line) are not part of this claim',
-        'choice of the longest row by setup_table_TOUGH2 (the harness takes the longest row of the first block itself)',
+        'internal headers, next_table, read_tables, skip_tables, multi-time reading, history() and the '
+        'TOUGH2_MP row reordering / duplicate rows (row_line) are not part of this claim; setup_table_* / read_table_* are executed '
+        'only on a miniature in-memory table of 3 rows (task_setup)',
+        'choice of the longest row by setup_table_TOUGH2 on a full table (in task_table the harness takes the longest row of the first block itself)',
         'row index field (int(indexstr)) and rows beyond the first block of each table',
         'IEEE rounding of float(): values are exact rationals sign*digits*10^exponent',
     ]
@@ -609,12 +826,17 @@ def run(tier, seed, rep):
         'reader model validated against CPython float() on %d slices of the shipped rows (%d disagreements)' % (nval, nbad),
         're.finditer(escape(\'.\'), row) evaluated on the concrete punctuation (no symbolic cell can be a point)',
         'table header parsing (parse_table_header_*) and detect_simulator run concretely on the shipped text',
+        'task_setup: the names of the rows of a table are pairwise distinct (asserted on the path); the in-memory file stub provides only '
+        'readline/tell/seek on a list of lines; findall(\'\\.[0-9]+\') is counted on concrete points followed by a digit-class cell',
     ]
     rep.functions.update(['t2listing.py:t2listing.start_of_values', 't2listing.py:t2listing.key_positions',
                           't2listing.py:t2listing.parse_table_line', 't2listing.py:t2listing.read_table_line_TOUGH2',
                           't2listing.py:t2listing.read_table_line_AUTOUGH2', 't2listing.py:listingtable.key_from_line',
                           't2listing.py:listingtable.__getitem__', 't2listing.py:listingtable.__setitem__',
-                          'fixed_format_file.py:fortran_float', 'mulgrids.py:fix_blockname', 'mulgrids.py:valid_blockname'])
+                          'fixed_format_file.py:fortran_float', 'mulgrids.py:fix_blockname', 'mulgrids.py:valid_blockname',
+                          't2listing.py:t2listing.setup_table_AUTOUGH2', 't2listing.py:t2listing.setup_table_TOUGH2',
+                          't2listing.py:t2listing.read_table_AUTOUGH2', 't2listing.py:t2listing.read_table_TOUGH2',
+                          't2listing.py:t2listing.skip_to_results_line', 't2listing.py:t2listing.is_results_line'])
     rep.process_failures()
     return rep.finish(rule='one obligation per (file, table, sign window / exponent variant, path, row, column): pc AND pow10 facts AND '
                       'NOT(cell read by the real kernel == independent evaluation of the printed cells) must be unsat, plus the '
